@@ -1,7 +1,8 @@
 """Generator of programs inside tranp's lark grammar (data/grammar.lark), used by the span/cache properties (C15, C16).
 
 The programs are syntactically valid for the grammar (they need not type-check): every compound statement, optional slot
-([parameters], [decorators], bare return, [else_clause], trailing commas), multi-line brackets, long strings, comment
+([parameters], [decorators], bare return, [else_clause], trailing commas), wide lists (11–25 parameters, arguments, elements,
+items, decorators, bases, imported names), multi-line brackets, long strings, comment
 statements, blank lines, tab- or space-indentation and non-ASCII text occur with fixed probabilities.
 """
 from __future__ import annotations
@@ -66,11 +67,20 @@ class Gen:
 			return '\n' + self.unit * self.rng.randint(0, 4)
 		return '\n' + ' ' * self.rng.randint(1, 7)
 
+	def wide(self, p: float = 0.05) -> int:
+		"""now and then a list is WIDE (11–25 items: positions ≥ 10 exist; with the optional slots of the surrounding node —
+		[starparam], [kwparams], [starargs], [kwargs], trailing commas — empty or filled); 0 = not this time"""
+		return self.rng.randint(11, 25) if self.rng.random() < p else 0
+
+	def small(self) -> str:
+		"""an item of a wide list: short, so that wide lists stay cheap"""
+		return self.rng.choice([self.name(), self.rng.choice(NUMBERS), self.rng.choice(STRINGS[:8]), f'{self.name()}.{self.name()}', f'-{self.name()}'])
+
 	def seq(self, o: str, c: str, d: int) -> str:
-		n = self.rng.randint(0, 3)
+		n = self.wide(0.04) or self.rng.randint(0, 3)
 		if n == 0:
 			return o + c
-		items = [self.expr(d - 1) if self.rng.random() < 0.9 else f'*{self.name()}' for _ in range(n)]
+		items = [(self.expr(d - 1) if n <= 3 else self.small()) if self.rng.random() < 0.9 else f'*{self.name()}' for _ in range(n)]
 		body = items[0]
 		for it in items[1:]:
 			body += ',' + self.sep(d) + it
@@ -89,13 +99,17 @@ class Gen:
 		return '(' + (',' + self.sep(d)).join(self.expr(d - 1) for _ in range(n)) + self.rng.choice(['', ',']) + ')'
 
 	def dict_(self, d: int) -> str:
-		n = self.rng.randint(0, 3)
-		items = [f'{self.expr(d - 1)}: {self.expr(d - 1)}' if self.rng.random() < 0.85 else f'**{self.name()}' for _ in range(n)]
+		n = self.wide(0.04) or self.rng.randint(0, 3)
+		items = [(f'{self.expr(d - 1)}: {self.expr(d - 1)}' if n <= 3 else f'{self.small()}: {self.small()}') if self.rng.random() < 0.85 else f'**{self.name()}' for _ in range(n)]
 		return '{' + (',' + self.sep(d)).join(items) + (',' if n and self.rng.random() < 0.3 else '') + '}'
 
 	def args(self, d: int) -> str:
-		n = self.rng.randint(0, 3)
-		items = [self.expr(d - 1) if self.rng.random() < 0.75 else f'{self.name()}={self.expr(d - 1)}' for _ in range(n)]
+		n = self.wide(0.06) or self.rng.randint(0, 3)
+		if n > 3:
+			k = self.rng.randint(0, n)  # positional arguments first, then keyword arguments
+			items = [self.small() if i < k else f'{self.name()}={self.small()}' for i in range(n)]
+		else:
+			items = [self.expr(d - 1) if self.rng.random() < 0.75 else f'{self.name()}={self.expr(d - 1)}' for _ in range(n)]
 		if self.rng.random() < 0.12:
 			items.append(f'*{self.name()}')
 		if self.rng.random() < 0.12:
@@ -200,8 +214,8 @@ class Gen:
 
 	def params(self, method: bool) -> str:
 		ps = ['self'] if method and self.rng.random() < 0.9 else []
-		for _ in range(self.rng.randint(0, 3)):
-			p = f'{self.name()}: {self.type_()}'
+		for i in range(self.wide(0.08) or self.rng.randint(0, 3)):
+			p = f'{self.name()}{i if i > 3 else ""}: {self.type_()}'
 			if self.rng.random() < 0.25:
 				p += f' = {self.expr(1)}'
 			ps.append(p)
@@ -213,7 +227,7 @@ class Gen:
 
 	def decorators(self, ind: str) -> list[str]:
 		out = []
-		for _ in range(self.rng.choice([0, 0, 0, 1, 2])):
+		for _ in range(self.wide(0.03) or self.rng.choice([0, 0, 0, 1, 2])):
 			out.append(ind + self.rng.choice(['@deco', '@a.b', f'@deco({self.args(1)})', '@classmethod', '@deco()']))
 		return out
 
@@ -227,6 +241,9 @@ class Gen:
 	def class_(self, ind: str, depth: int) -> list[str]:
 		r = self.rng.random()
 		base = '' if r < 0.4 else '()' if r < 0.5 else f'({self.name()})' if r < 0.75 else f'({self.name()}, {self.name()})' if r < 0.9 else f'({self.name()}, metaclass={self.name()})'
+		w = self.wide(0.04)
+		if w:
+			base = '(' + ', '.join(self.name() for _ in range(w)) + self.rng.choice(['', ',', f', metaclass={self.name()}']) + ')'
 		tp = self.rng.choice(['', '', '', '[T]'])
 		out = [*self.decorators(ind), f'{ind}class {self.name()}{tp}{base}:']
 		inner = ind + self.unit
@@ -286,6 +303,9 @@ class Gen:
 				out.append(f'from {self.name()} import {self.name()}, {self.name()} as {self.name()}')
 			else:
 				out.append(f'from {self.name()}.b.c import (\n{self.unit}{self.name()},\n{self.unit}{self.name()} as {self.name()},\n)')
+			w = self.wide(0.04)
+			if w:
+				out.append(f'from {self.name()} import ' + ', '.join(self.name() + self.rng.choice(['', f' as {self.name()}']) for _ in range(w)))
 		return out
 
 	def module(self, n_statements: int) -> str:
